@@ -600,7 +600,7 @@ def extra_c10(tier, seed):
         text += plan_wear_script(cap, rng)
         return text, info
     caps = [1, 2, 3, 4, 8] if q else [1, 2, 3, 4, 5, 8, 17, 64, 254]
-    return _run("plan", tier, seed, caps, script, ["TL_cap1", "TL_cap2", "TL_cap3"] + ([] if q else ["TL_cap4"]), "TaskList.tla")
+    return _run("plan", tier, seed, caps, script, ["TL_cap1", "TL_cap2", "TL_cap3"] + ([] if q else ["TL_cap4", "TL_cap5", "TL_cap6"]), "TaskList.tla")
 
 
 def extra_c20(tier, seed):
